@@ -280,7 +280,7 @@ def run(tier, cmd):
                             '(3) information-free bytes cannot influence any accessor (so their zeroing is unobservable except through to_bytes / '
                             'data_byte_* / to_other, which the property exempts); (4) conversions pass the bytes unchanged. Not decided: a '
                             'third-party implementor that overrides to_bytes or another default inconsistently (outside the repository).')
-    Fs = load_configs(chk, ['K1'], required=('K1',))
+    Fs = load_configs(chk, ['K1', 'K2'], required=('K1',))
     for cfg, F in sorted(Fs.items()):
         guarded(chk, '%s/overrides/%s' % (PID, cfg), 'override inventory', lambda F=F: overrides_clause(chk, F, tier))
         guarded(chk, '%s/structured/%s' % (PID, cfg), 'accessor oracle on the structured form', lambda F=F: structured_clause(chk, F, tier))
